@@ -229,16 +229,25 @@ namespace igris
 
         template <typename... Args> void emplace_back(Args &&... args)
         {
-            reserve(m_size + 1);
-            igris::constructor(m_data + m_size, std::forward<Args>(args)...);
+            if (m_size < m_capacity)
+            {
+                igris::constructor(m_data + m_size,
+                                   std::forward<Args>(args)...);
+            }
+            else
+            {
+                // args may refer to an element of this vector: the new
+                // element is built before reserve() destroys the old ones
+                T value(std::forward<Args>(args)...);
+                reserve(m_size + 1);
+                igris::move_constructor(m_data + m_size, std::move(value));
+            }
             m_size++;
         }
 
         void push_back(const T &ref)
         {
-            reserve(m_size + 1);
-            igris::constructor(m_data + m_size, ref);
-            m_size++;
+            emplace_back(ref);
         }
 
         void pop_back()
